@@ -25,6 +25,17 @@ HashKind(op) == CASE op = OP_RIPEMD160 -> "ripemd160" [] op = OP_SHA1 -> "sha1" 
                   [] op = OP_HASH160 -> "hash160" [] OTHER -> "sha256d"
 TopOr(s) == IF s = <<>> THEN <<>> ELSE s[Len(s)]
 
+\* self-tests of the debugger rules, evaluated at every start of a validation run: the rules accept the
+\* documented shape and reject a moved position, a missing BeforeStep and a success without AfterSuccess
+StepCalls == <<"BeforeExecute", "BeforeStep", "BeforeExecuteOpcode", "BeforeStackPush", "AfterStackPush",
+               "AfterExecuteOpcode", "BeforeScriptChange", "AfterScriptChange", "AfterStep", "AfterExecute", "AfterSuccess">>
+ASSUME Lifecycle(StepCalls, "ok") /\ ~Lifecycle(StepCalls, "err") /\ Lifecycle(<<>>, "err") /\ ~Lifecycle(<<>>, "ok")
+ASSUME ~Lifecycle(SubSeq(StepCalls, 1, 10), "ok") /\ ~Lifecycle(<<"BeforeExecute", "BeforeExecuteOpcode">>, "err")
+ASSUME OpPositions(StepCalls, <<0, 0, 0, 0, 0, 0, 1, 1000000, 1000000, 1000000, 1000000>>) = 0
+ASSUME OpPositions(StepCalls, <<0, 0, 0, 0, 0, 1, 1, 1000000, 1000000, 1000000, 1000000>>) = 6
+ASSUME OpPositions(StepCalls, <<0, 1, 0, 0, 0, 1, 1, 1000000, 1000000, 1000000, 1000000>>) = 3
+ASSUME OpPositions(<<>>, <<>>) = 0
+
 Init == l = 1 /\ vm = NoVM /\ cx = NoVM /\ mode = "idle" /\ nsteps = 0
 
 \* every hash a signer embedded in a preimage is an oracle obligation
